@@ -486,11 +486,90 @@ def stage_edges(ctx, st):
         report(ctx, info, st, module, st["invariants"])
 
 
+def stage_aux(ctx, st):
+    """Self-contained observations (driver aux -kind K) validated by TraceAux.tla; every line is
+    independent, so each line is treated as a trace of its own."""
+    n = st["n"][0] if ctx.tier == "quick" else st["n"][1]
+    reps = st.get("reps", (1, 1))
+    reps = reps[0] if ctx.tier == "quick" else reps[1]
+    all_lines = []
+    for rep in range(reps):
+        out = os.path.join(ctx.work, "aux-%s-%d.ndjson" % (st["name"], rep))
+        stats = os.path.join(ctx.work, "aux-%s-%d.json" % (st["name"], rep))
+        seed = ctx.seed + st.get("seed_off", 0) + rep * 101
+        msg = run_driver(ctx, ["aux", "-kind", st["aux"], "-seed", str(seed), "-n", str(n), "-out", out, "-stats", stats])
+        ctx.log(msg.strip().splitlines()[-1])
+        with open(out) as f:
+            lines = [ln for ln in f if ln.strip() and '"kind":"Reset"' not in ln[:40]]
+        with open(stats) as f:
+            sj = json.load(f)
+        for k, v in sj.get("outcomes", {}).items():
+            if k != "lines":
+                ctx.outcomes[st["aux"] + ":" + k] = ctx.outcomes.get(st["aux"] + ":" + k, 0) + v
+        for ln in lines:
+            all_lines.append((seed, ln))
+    ctx.traces += len(all_lines)
+    ctx.events += len(all_lines)
+    ctx.evaluations += sum(v for k, v in ctx.outcomes.items() if k.startswith(st["aux"] + ":") and "/" not in k.split(":", 1)[1]) or len(all_lines)
+    if all_lines and len(ctx.samples) < 8:
+        ctx.samples.append(json.loads(all_lines[0][1][:200000]) if len(all_lines[0][1]) < 4000 else {"kind": st["aux"], "line_bytes": len(all_lines[0][1])})
+    # lines that are instances of an open known finding are validated through one representative
+    # each (it must still be rejected), the others are set aside so that they cannot hide anything else
+    known_lines = {}
+    rest = []
+    for _, ln in all_lines:
+        k = aux_known_match(ctx, ln)
+        if k is None:
+            rest.append(ln)
+        else:
+            known_lines.setdefault(k["what"], []).append(ln)
+    traces = [[ln] for ln in rest] + [[lns[0]] for lns in known_lines.values()]
+    ctx.extra["known_finding_instances"] = {w[:60]: len(lns) for w, lns in known_lines.items()}
+    found = validate_traces(ctx, "TraceAux", ["InvAux"], traces, st["name"], chunk=st.get("chunk", 400), par=12,
+                            heap=st.get("heap", "6g"))
+    ctx.stage_log.append({"stage": st["name"], "aux": st["aux"], "lines": len(all_lines), "rejections": len(found)})
+    for info in found:
+        if len(ctx.violations) >= MAX_REPORTS:
+            ctx.extra["further_rejections_not_reported"] = ctx.extra.get("further_rejections_not_reported", 0) + 1
+            continue
+        line = info["trace"][0]
+        k = aux_known_match(ctx, line)
+        if k is not None:
+            msg = "KNOWN-FINDING: property=%s %s" % (ctx.prop, k["what"])
+            if msg not in ctx.known_printed:
+                print(msg, flush=True)
+                ctx.known_printed.append(msg)
+            continue
+        rdir = os.path.join(ctx.root, "replays", ctx.prop)
+        os.makedirs(rdir, exist_ok=True)
+        path = os.path.join(rdir, "%s-seed%d-%d.json" % (st["name"], ctx.seed, len(ctx.violations)))
+        ev = json.loads(line)
+        rep = {"property": ctx.prop, "invariant": "InvAux", "module": "TraceAux", "replay_fn": "aux",
+               "stage": {k2: v for k2, v in st.items() if isinstance(v, (str, int, float, list, dict))},
+               "tier": ctx.tier, "seed": ctx.seed, "line": ev}
+        with open(path, "w") as f:
+            json.dump(rep, f, indent=1)
+        ctx.violations.append({"replay": path, "invariant": "InvAux", "event": {"kind": ev.get("kind")}})
+        print("VIOLATION property=%s replay=%s" % (ctx.prop, path), flush=True)
+        brief = {k2: v for k2, v in ev.items() if k2 not in ("cmp", "key", "pfx", "vals", "universe")}
+        ctx.log("  TraceAux rejected: %s" % json.dumps(brief)[:700])
+
+
+def aux_known_match(ctx, line):
+    for k in ctx.known:
+        if k.get("status") != "open" or k.get("property") != ctx.prop:
+            continue
+        m = k.get("match", {})
+        if "line_re" in m and re.search(m["line_re"], line):
+            return k
+    return None
+
+
 def stage_custom(ctx, st):
     return st["fn"](ctx, st)
 
 
-STAGES = {"trace": stage_trace, "mc": stage_mc, "custom": stage_custom, "edges": stage_edges}
+STAGES = {"trace": stage_trace, "mc": stage_mc, "custom": stage_custom, "edges": stage_edges, "aux": stage_aux}
 
 
 # ------------------------------------------------------------------ evidence
@@ -573,7 +652,13 @@ def run_replay(root, path, PLANS):
     rc = 0
     try:
         build_driver(ctx)
-        if "replay_fn" in rep:
+        if rep.get("replay_fn") == "aux":
+            ctx.tier = rep.get("tier", "quick")
+            stage_aux(ctx, rep["stage"])
+            rc = 1 if ctx.violations else 0
+            if rc == 0:
+                print("replay conforms: property=%s" % prop)
+        elif "replay_fn" in rep:
             from . import plans as P
             rc = P.REPLAYS[rep["replay_fn"]](ctx, rep)
         else:
